@@ -486,7 +486,8 @@ def write_evidence(propmod, ctx: Ctx, tier: str, seed: int, wall: float, n_viol:
         assumptions=list(propmod.ASSUMPTIONS) + [
             "the rules hold on the reference tree /verif/reference (commit in reference/COMMIT), where every one of them was confirmed",
             "reference equivalence (sa/nf.py), used only for functions that differ textually from the reference: expressions other than calls of mutating methods "
-            "have no order-dependent side effects; `*` commutes; real-number algebra; an unused pure binding may be dropped; message texts of raise/warn are not behaviour"],
+            "have no order-dependent side effects and do not raise (outside a try body with handlers, where every evaluation is kept in place); `*` commutes; "
+            "real-number algebra; an unused pure binding may be dropped; message texts of raise/warn are not behaviour; generator expressions are consumed where written"],
         wall_s=round(wall, 3),
         violations=n_viol,
     )
